@@ -340,6 +340,12 @@ fn alphabet_full() -> Vec<(&'static str, &'static str)> {
         ("record-invalid", "x,500!"),
         ("record-invalid", "Combo1 : !"),
         ("record-invalid", "1,!"),
+        // Unicode: NEL / LINE SEPARATOR are White_Space, ZERO WIDTH SPACE and
+        // U+FEFF are not; a U+FEFF at the very start of a UTF-8 file is the BOM
+        ("ws", "\u{85}\u{2028}"),
+        ("record-valid", "\u{200b}"),
+        ("record-valid", "Title:\u{4e0a}x\u{2003}"),
+        ("header-indented", "\u{feff}[General]"),
     ]);
     a
 }
@@ -390,7 +396,8 @@ impl<'a> Ctx<'a> {
     /// oracle on one text, all encodings that apply; returns the UTF-8 trace
     fn oracle(&mut self, text: &str, what: &str) -> Result<Trace, String> {
         let t = run_impl::<true>(text.as_bytes());
-        let sp = spec(text);
+        // "detect the BOM": a leading U+FEFF of a UTF-8 file is not text
+        let sp = spec(text.strip_prefix('\u{feff}').unwrap_or(text));
         self.out.oracle_checks += 1;
         match &t {
             Ok((v, log)) => {
@@ -441,6 +448,8 @@ impl<'a> Ctx<'a> {
     /// correspondence cases for one text (UTF-8): raw lines and whole text
     fn record(&mut self, text: &str, t: &Result<Trace, String>, what: &str) {
         let nt = matches!(t, Ok((v, log)) if !log.is_empty() || *v != LATEST);
+        // the model starts after the BOM (byte layer: C10)
+        let text = text.strip_prefix('\u{feff}').unwrap_or(text);
         let mut raw: Vec<&str> = text.split('\n').collect();
         if raw.last() == Some(&"") {
             raw.pop();
@@ -518,6 +527,14 @@ impl<'a> Ctx<'a> {
 
     /// metamorphic checks on one file (lines), LF joined with final newline
     fn metamorphic(&mut self, lines: &[&str], r: &mut Rng) {
+        // a U+FEFF at the very start of a UTF-8 file is the BOM, not part of
+        // the first line (that reading is exercised by `file`); insertions are
+        // made into the text, i.e. after it
+        let mut owned: Vec<&str> = lines.to_vec();
+        if let Some(f) = owned.first_mut() {
+            *f = f.strip_prefix('\u{feff}').unwrap_or(f);
+        }
+        let lines = &owned[..];
         let text = join(lines, false, true);
         let base = run_impl::<true>(text.as_bytes());
         let first_nonblank = lines.iter().position(|l| !l.trim_end().is_empty());
